@@ -143,7 +143,11 @@ def run(tier):
     n = 0
     for lname, doc in LAYOUTS.items():
         toks = render(doc)
-        for hist in [[op] for op in OPS] + HISTORIES:
+        hists = [[op] for op in OPS] + HISTORIES
+        if tier == "thorough" or lname in ("comment, multi-line value, duplicate name, second paragraph", "no final newline"):
+            # every ordered pair of operations (the second acts on what the first left behind)
+            hists += [[a, b] for a in OPS for b in OPS if [a, b] not in HISTORIES]
+        for hist in hists:
             op = hist[0]
             n += 1
             label = "%s :: %s" % (lname, " ; ".join(op_str(o) for o in hist))
@@ -214,7 +218,7 @@ def run(tier):
                 C.ob("C04/live-content", label, live == items_of(want_doc[0]), "items() of the edited paragraph reports %s, the model has %s" % (live, items_of(want_doc[0])))
             if len(C.samples) < 8:
                 C.sample({"layout": lname, "operation": op_str(op), "before": db.text_of_tokens(toks), "after": got})
-    C.floor("C04/edits", n, 100, "layout x operation / history combinations")
+    C.floor("C04/edits", n, 400, "layout x operation / history combinations")
     check_entry_new(F, C)
     check_ownership(F, C)
     C.assumptions += ["rowan 0.16 semantics as modelled (splice_children detaches replaced children and re-parents inserted ones; SyntaxNodeChildren continues from the previously yielded node)",
